@@ -64,7 +64,10 @@ Definition agrees (msep : bool) (src : list char) : Prop :=
 Definition C11_statement : Prop := forall msep src, macro_free (body_of src) = true -> agrees msep src.
 
 Theorem C11_lexer_is_reference : C11_statement.
-Proof. intros msep src H. exact (lex_is_reflex_macro_free msep src H). Qed.
+Proof.
+  intros msep src H. pose proof (lex_is_reflex_macro_free msep src H) as G. unfold agrees. cbv zeta in G |- *.
+  destruct (reflex src) as [[T E] lit]. destruct G as (G1 & G2 & G3 & G4 & G5 & _). auto.
+Qed.
 Print Assumptions C11_lexer_is_reference.
 
 (** the premise is satisfiable, by texts with both kinds of quoted literals, comments and a datalines block *)
